@@ -30,13 +30,23 @@ Qed.
 
 Definition numbered (p : Z * msg) : Prop := get T34 (mtags (snd p)) = Some (z_to_dec (fst p)).
 
-(* what one computation did to the outbound side: the frames it wrote carry next_num_out, +1, ... and are
+(* the NEW frames among the written ones: everything but the replies to a ResendRequest (PossDupFlag = Y
+   retransmissions and SequenceReset-GapFill), which are numbered by themselves and not journaled *)
+Definition news (l : list event) : list msg := filter (fun wm => negb (skip_journal wm)) (wires l).
+
+Lemma news_app a b : news (a ++ b) = news a ++ news b.
+Proof. unfold news. now rewrite wires_app, filter_app. Qed.
+
+Lemma news_nil l : wires l = [] -> news l = [].
+Proof. unfold news. now intros ->. Qed.
+
+(* what one computation did to the outbound side: the new frames it wrote carry next_num_out, +1, ... and are
    exactly the rows appended to the journal, under those numbers; the invariant holds again *)
 Record OutStep (w : world) {A} (r : res A) : Prop := mkOS {
   os_inv : Out_inv (rw r);
-  os_rows : j_out (jr (rw r)) = j_out (jr w) ++ number_from (nout w) (wires (re r));
-  os_nout : nout (rw r) = nout w + Z.of_nat (length (wires (re r)));
-  os_num : Forall numbered (number_from (nout w) (wires (re r)))
+  os_rows : j_out (jr (rw r)) = j_out (jr w) ++ number_from (nout w) (news (re r));
+  os_nout : nout (rw r) = nout w + Z.of_nat (length (news (re r)));
+  os_num : Forall numbered (number_from (nout w) (news (re r)))
 }.
 
 Definition in_range (w : world) {A} (r : res A) : Prop := I64MIN <= nout w /\ nout (rw r) <= I64MAX + 1.
@@ -54,7 +64,7 @@ Lemma outok_quiet {A} (c : M A) :
   pres st c -> pres wr c -> allev not_wire c -> outok c.
 Proof.
   intros H1 H2 H3 H4 H5 H6 w [I1 [I2 I3]] _.
-  pose proof (wires_nil _ (H6 w)) as Hw.
+  pose proof (news_nil _ (wires_nil _ (H6 w))) as Hw.
   constructor; rewrite ?Hw; cbn [number_from length Z.of_nat]; rewrite ?app_nil_r, ?Z.add_0_r; auto.
   unfold Out_inv, alive. rewrite (H1 w), (H2 w), (H3 w), (H4 w), (H5 w). auto.
 Qed.
@@ -91,9 +101,9 @@ Lemma outstep_compose {A B} w (r1 : res A) (r2 : res B) :
 Proof.
   intros [A1 A2 A3 A4] [B1 B2 B3 B4]. constructor; cbn [rv rw re].
   - exact B1.
-  - rewrite B2, A2, wires_app, number_from_app, <- app_assoc, A3. reflexivity.
-  - rewrite B3, A3, wires_app, app_length, Nat2Z.inj_add. lia.
-  - rewrite wires_app, number_from_app. apply Forall_app. split; [exact A4|]. rewrite <- A3. exact B4.
+  - rewrite B2, A2, news_app, number_from_app, <- app_assoc, A3. reflexivity.
+  - rewrite B3, A3, news_app, app_length, Nat2Z.inj_add. lia.
+  - rewrite news_app, number_from_app. apply Forall_app. split; [exact A4|]. rewrite <- A3. exact B4.
 Qed.
 
 Lemma outok_bind {A B} (c : M A) (k : A -> M B) :
@@ -144,9 +154,43 @@ Definition sent_world (c : cfg) (m : msg) (w : world) : world :=
   set_jsout (nout w)
     (set_jout (j_out (jr w) ++ [(nout w, mkMsg (mtype m) (wire_tags c (nout w) m))]) (set_nout (nout w + 1) w)).
 
+(* a new message is never one of the unjournaled kinds *)
+Lemma raw_false_skip_false m : raw_seq m = false -> skip_journal m = false.
+Proof.
+  unfold raw_seq, skip_journal. destruct (mkind m); try discriminate;
+    destruct (get T43 (mtags m)); intros H; rewrite ?H; reflexivity.
+Qed.
+
+Lemma get_filter_keep (t : str) (p : tagv -> bool) l :
+  (forall v, p (t, v) = true) -> (forall k v, str_eqb k t = true -> p (k, v) = true) ->
+  get t (filter p l) = get t l.
+Proof.
+  intros Hp Hk. induction l as [|[k v] l IH]; [reflexivity|]. cbn [filter get].
+  destruct (str_eqb k t) eqn:E.
+  - rewrite (Hk k v E). cbn [get]. now rewrite E.
+  - destruct (p (k, v)); cbn [get]; rewrite ?E; exact IH.
+Qed.
+
+(* the frame on the wire has the PossDupFlag / GapFillFlag / type of the message: same journaling decision *)
+Lemma skip_journal_wire c n m : skip_journal (mkMsg (mtype m) (wire_tags c n m)) = skip_journal m.
+Proof.
+  unfold skip_journal, mkind. cbn [mtype mtags]. unfold wire_tags.
+  assert (H43 : get T43 ([(T49, c_sender c); (T56, c_target c); (T34, z_to_dec n); (T52, c_time c)]
+                         ++ filter (fun tv => negb (is_hdr_skip (fst tv))) (mtags m)) = get T43 (mtags m)).
+  { cbn [app get]. change (str_eqb T49 T43) with false. change (str_eqb T56 T43) with false.
+    change (str_eqb T34 T43) with false. change (str_eqb T52 T43) with false. cbn iota.
+    apply get_filter_keep; [reflexivity|]. intros k v E. apply str_eqb_eq in E. subst k. reflexivity. }
+  assert (H123 : get T123 ([(T49, c_sender c); (T56, c_target c); (T34, z_to_dec n); (T52, c_time c)]
+                         ++ filter (fun tv => negb (is_hdr_skip (fst tv))) (mtags m)) = get T123 (mtags m)).
+  { cbn [app get]. change (str_eqb T49 T123) with false. change (str_eqb T56 T123) with false.
+    change (str_eqb T34 T123) with false. change (str_eqb T52 T123) with false. cbn iota.
+    apply get_filter_keep; [reflexivity|]. intros k v E. apply str_eqb_eq in E. subst k. reflexivity. }
+  rewrite H43, H123. reflexivity.
+Qed.
+
 Lemma send_write_new_nout c m w : raw_seq m = false -> nout (rw (send_write c m w)) = nout w + 1.
 Proof.
-  intros Hr. unfold send_write, encode. rewrite Hr. msimp.
+  intros Hr. unfold send_write, encode. rewrite Hr, (raw_false_skip_false m Hr). msimp.
   assert (Hp : forall a b, pres nout (persist_out a b)) by (intros; apply persist_out_pres; ins_solve).
   destruct (wr (set_nout (nout w + 1) w)); msimp; [rewrite Hp|]; reflexivity.
 Qed.
@@ -155,7 +199,7 @@ Lemma send_write_new c m w :
   raw_seq m = false -> wr w = true -> in_i64 (nout w) = true -> has_key (nout w) (j_out (jr w)) = false ->
   send_write c m w = mkR (inl tt) (sent_world c m w) [Wire (mkMsg (mtype m) (wire_tags c (nout w) m))].
 Proof.
-  intros Hr Hw Hi Hk. unfold send_write, encode. rewrite Hr. msimp.
+  intros Hr Hw Hi Hk. unfold send_write, encode. rewrite Hr, (raw_false_skip_false m Hr). msimp.
   cbn [wr set_nout]. rewrite Hw. msimp. unfold persist_out. cbn [jr set_nout j_out]. rewrite Hi, Hk. cbn [negb].
   reflexivity.
 Qed.
@@ -163,19 +207,24 @@ Qed.
 Lemma wire_tags_34 c n m : get T34 (wire_tags c n m) = Some (z_to_dec n).
 Proof. reflexivity. Qed.
 
+Lemma news_one_new c n m : raw_seq m = false -> news [Wire (mkMsg (mtype m) (wire_tags c n m))] = [mkMsg (mtype m) (wire_tags c n m)].
+Proof. intros Hr. unfold news. cbn [wires filter]. rewrite skip_journal_wire, (raw_false_skip_false m Hr). reflexivity. Qed.
+
 Lemma sent_world_outstep c m w (pre : list event) w0 :
+  raw_seq m = false ->
   Out_inv w -> wires pre = [] -> j_out (jr w0) = j_out (jr w) -> nout w0 = nout w ->
   (alive (sent_world c m w) -> wr (sent_world c m w) = true) ->
   OutStep w0 (mkR (inl tt) (sent_world c m w) (pre ++ [Wire (mkMsg (mtype m) (wire_tags c (nout w) m))])).
 Proof.
-  intros [I1 [I2 I3]] Hp Hj Hn Hal. constructor; cbn [rv rw re].
+  intros Hr [I1 [I2 I3]] Hp Hj Hn Hal. constructor; cbn [rv rw re].
   - split; [|split].
     + cbn. lia.
     + cbn. apply Forall_app. split; [eapply Forall_impl; [|exact I2]; cbn; intros; lia|]. constructor; [cbn; lia|constructor].
     + exact Hal.
-  - rewrite wires_app, Hp. cbn. rewrite Hj, Hn. reflexivity.
-  - rewrite wires_app, Hp. cbn. lia.
-  - rewrite wires_app, Hp. cbn. constructor; [|constructor]. unfold numbered. cbn [fst snd mtags]. rewrite Hn. apply wire_tags_34.
+  - rewrite news_app, (news_nil _ Hp), (news_one_new c _ m Hr). cbn. rewrite Hj, Hn. reflexivity.
+  - rewrite news_app, (news_nil _ Hp), (news_one_new c _ m Hr). cbn. lia.
+  - rewrite news_app, (news_nil _ Hp), (news_one_new c _ m Hr). cbn. constructor; [|constructor].
+    unfold numbered. cbn [fst snd mtags]. rewrite Hn. apply wire_tags_34.
 Qed.
 
 Lemma send_gate_cases2 m w :
@@ -196,7 +245,8 @@ Proof. intros [A1 A2 A3 A4]. constructor; cbn [rv rw re]; auto. Qed.
 
 Lemma outstep_id w {A} (v : A + exn) : Out_inv w -> OutStep w (mkR v w []).
 Proof.
-  intros H. constructor; cbn [rv rw re wires number_from length Z.of_nat]; rewrite ?app_nil_r, ?Z.add_0_r; auto.
+  intros H. constructor; cbn [rv rw re]; unfold news; cbn [wires filter number_from length Z.of_nat];
+    rewrite ?app_nil_r, ?Z.add_0_r; auto.
 Qed.
 
 (* a new (not SequenceReset, not PossDup) message: refused without any effect, or written with number
@@ -252,7 +302,7 @@ Lemma outok_quiet_inv {A} (c : M A) :
 Proof.
   intros H1 H4 H5 H6 HJ w [I1 [I2 I3]] _.
   destruct (HJ w (conj I1 (conj I2 I3))) as [J1 J2].
-  pose proof (wires_nil _ (H6 w)) as Hw.
+  pose proof (news_nil _ (wires_nil _ (H6 w))) as Hw.
   constructor; rewrite ?Hw; cbn [number_from length Z.of_nat]; rewrite ?app_nil_r, ?Z.add_0_r; auto.
   unfold Out_inv, alive. rewrite (H1 w), J1, J2, (H4 w), (H5 w). auto.
 Qed.
@@ -530,10 +580,206 @@ Proof.
   apply mono_pres. apply process_seqreset_pres. ins_solve.
 Qed.
 
-(* D12 is the class of inbound ResendRequests: everything else that dispatch does keeps the invariant *)
-Lemma dispatch_outok c m v : mkind m <> KResend -> outok (dispatch c m v).
+(* ------------------------------------------------------------------ replies to a ResendRequest *)
+
+Lemma skip_true_raw m : skip_journal m = true -> raw_seq m = true.
 Proof.
-  intros Hk.
+  intros H. destruct (raw_seq m) eqn:E; [reflexivity|]. rewrite (raw_false_skip_false m E) in H. discriminate.
+Qed.
+
+(* a PossDupFlag=Y message / a SequenceReset-GapFill is written (or fails to encode) and nothing else happens *)
+Lemma send_write_skip_world c m w : skip_journal m = true -> rw (send_write c m w) = w.
+Proof.
+  intros Hs. unfold send_write, encode. rewrite (skip_true_raw m Hs), Hs.
+  destruct (get T34 (mtags m)); [|reflexivity]. destruct (py_int s); [|reflexivity].
+  msimp. destruct (wr w); msimp; reflexivity.
+Qed.
+
+Lemma send_msg_skip_pres {X} (f : world -> X) c m :
+  skip_journal m = true -> ins_all f [FSt; FRole] -> pres f (send_msg c m).
+Proof.
+  intros Hs Hf w. unfold send_msg. rewrite bind_unfold. cbn [getw rv rw re]. rewrite bind_unfold.
+  pose proof (send_gate_pres f m w Hf w) as Hg.
+  destruct (rv (send_gate m w w)); cbn [rv rw re]; [|exact Hg].
+  unfold send_tail. rewrite bind_unfold.
+  destruct (mkind m), (treq w); msimp; rewrite ?(send_write_skip_world c m _ Hs); exact Hg.
+Qed.
+
+Lemma send_msg_skip_news c m w : skip_journal m = true -> news (re (send_msg c m w)) = [].
+Proof.
+  intros Hs. unfold news. destruct (send_msg_wires c m w) as [H|[n H]]; rewrite H; [reflexivity|].
+  cbn [filter]. rewrite skip_journal_wire, Hs. reflexivity.
+Qed.
+
+Lemma send_msg_alive_back c m w : alive (rw (send_msg c m w)) -> alive w.
+Proof.
+  unfold alive. destruct (send_msg_st c m w) as [E|[E1 E2]]; [rewrite E; auto|]. intros _. stlia.
+Qed.
+
+Lemma send_msg_retrans_outok c m : skip_journal m = true -> outok (send_msg c m).
+Proof.
+  intros Hs w [I1 [I2 I3]] _.
+  assert (P1 : nout (rw (send_msg c m w)) = nout w) by (apply (send_msg_skip_pres nout c m Hs); ins_solve).
+  assert (P2 : j_sout (jr (rw (send_msg c m w))) = j_sout (jr w))
+    by (apply (send_msg_skip_pres (fun w => j_sout (jr w)) c m Hs); ins_solve).
+  assert (P3 : j_out (jr (rw (send_msg c m w))) = j_out (jr w))
+    by (apply (send_msg_skip_pres (fun w => j_out (jr w)) c m Hs); ins_solve).
+  assert (P4 : wr (rw (send_msg c m w)) = wr w) by (apply (send_msg_skip_pres wr c m Hs); ins_solve).
+  constructor; rewrite ?(send_msg_skip_news c m w Hs); cbn [number_from length Z.of_nat];
+    rewrite ?app_nil_r, ?Z.add_0_r; auto.
+  unfold Out_inv. rewrite P1, P2, P3, P4. repeat split; auto.
+  intros Ha. apply I3. eapply send_msg_alive_back; eauto.
+Qed.
+
+Lemma send_msg_retrans_mono c m : skip_journal m = true -> mono (send_msg c m).
+Proof. intros Hs. apply mono_pres. apply send_msg_skip_pres; [exact Hs|ins_solve]. Qed.
+
+Lemma gap_fill_skip b e : skip_journal (gap_fill b e) = true.
+Proof. reflexivity. Qed.
+
+Lemma get_app_new t v l : get t l = None -> get t (l ++ [(t, v)]) = Some v.
+Proof.
+  induction l as [|[k x] l IH]; cbn [app get]; intros H.
+  - now rewrite str_eqb_refl.
+  - destruct (str_eqb k t); [discriminate|]. apply IH. exact H.
+Qed.
+
+Lemma get_app_keep t (l l' : list tagv) v : get t l = Some v -> get t (l ++ l') = Some v.
+Proof.
+  induction l as [|[k x] l IH]; cbn [app get]; intros H; [discriminate|].
+  destruct (str_eqb k t); [exact H|]. apply IH. exact H.
+Qed.
+
+Lemma get_del_other t t' l : t' <> t -> get t (del t' l) = get t l.
+Proof.
+  intros Hne. induction l as [|[k x] l IH]; [reflexivity|]. cbn [del].
+  destruct (str_eqb k t') eqn:E.
+  - apply str_eqb_eq in E. subst k. cbn [get]. destruct (str_eqb t' t) eqn:E2; [apply str_eqb_eq in E2; congruence|reflexivity].
+  - cbn [get]. destruct (str_eqb k t); [reflexivity|exact IH].
+Qed.
+
+Lemma del_tags_get t ts : forall (x y : msg),
+  ~ In t ts -> del_tags ts x = inl y -> get t (mtags y) = get t (mtags x).
+Proof.
+  induction ts as [|t' ts IH]; intros x y Hn H; cbn in H; [now inversion H|].
+  unfold del_tag in H. destruct (has t' (mtags x)); [|discriminate].
+  rewrite (IH _ _ (fun Hin => Hn (or_intror Hin)) H). cbn [mtags]. apply get_del_other.
+  intros E. apply Hn. left. exact E.
+Qed.
+
+(* outok and mono together, with a bind rule that keeps the equation of a lifted value *)
+Definition om {A} (c : M A) : Prop := outok c /\ mono c.
+
+Lemma om_bind {A B} (c : M A) (k : A -> M B) : om c -> (forall a, om (k a)) -> om (bind c k).
+Proof.
+  intros [Hc Hm] Hk. split.
+  - apply outok_bind; [exact Hc|intros a; apply Hk|intros a; apply Hk].
+  - apply mono_bind; [exact Hm|intros a; apply Hk].
+Qed.
+
+Lemma om_bind_lift {A B} (v : A + exn) (k : A -> M B) :
+  (forall a, v = inl a -> om (k a)) -> om (bind (lift v) k).
+Proof.
+  intros H. destruct v as [a|x].
+  - destruct (H a eq_refl) as [Ho Hm]. split.
+    + intros w Hi Hr. rewrite bind_unfold in *. cbn [lift ret rv rw re app] in *. apply outstep_eta. apply Ho; assumption.
+    + intros w. rewrite bind_unfold. cbn [lift ret rv rw re]. apply Hm.
+  - split.
+    + intros w Hi _. rewrite bind_unfold. cbn [lift raise rv rw re]. apply outstep_id. exact Hi.
+    + intros w. rewrite bind_unfold. cbn. lia.
+Qed.
+
+Lemma om_ret {A} (a : A) : om (ret a). Proof. split; [apply outok_ret|apply mono_ret]. Qed.
+Lemma om_raise {A} x : om (@raise A x). Proof. split; [apply outok_raise|apply mono_raise]. Qed.
+Lemma om_retrans c m : skip_journal m = true -> om (send_msg c m).
+Proof. intros H. split; [apply send_msg_retrans_outok|apply send_msg_retrans_mono]; exact H. Qed.
+
+(* the replay loop sends gap fills and PossDupFlag=Y copies only: nothing is journaled, nothing is numbered *)
+Lemma replay_loop_om c rows : forall a b, om (replay_loop c rows a b).
+Proof.
+  induction rows as [|r rows IH]; intros a b; cbn [replay_loop]; [apply om_ret|].
+  apply om_bind_lift. intros n _. apply om_bind_lift. intros t _.
+  destruct (_ || _); [apply IH|].
+  apply om_bind; [destruct (a <? b); [apply om_retrans, gap_fill_skip|apply om_ret]|intros _].
+  apply om_bind_lift. intros m1 H1. apply om_bind_lift. intros v52 _.
+  apply om_bind_lift. intros m2 H2. apply om_bind_lift. intros m3 H3.
+  apply om_bind; [|intros _; apply IH].
+  apply om_retrans. unfold skip_journal.
+  assert (get T43 (mtags m3) = Some S_Y) as ->; [|reflexivity].
+  rewrite (del_tags_get T43 [T35; T8; T9; T52; T49; T56; T10] m2 m3);
+    [|cbn; intros [E|[E|[E|[E|[E|[E|[E|[]]]]]]]]; discriminate|exact H3].
+  unfold set_tag in H1, H2.
+  destruct (has T43 (mtags (decode_row c r))) eqn:E1; [discriminate|]. inversion H1; subst m1. clear H1.
+  cbn [mtags] in H2. destruct (has T122 _); [discriminate|]. inversion H2; subst m2. cbn [mtags].
+  apply get_app_keep. apply get_app_new. unfold has in E1. destruct (get T43 _); [discriminate|reflexivity].
+Qed.
+
+Lemma replay_loop_keeps_alive c rows : forall a b, keeps alive (replay_loop c rows a b).
+Proof.
+  induction rows as [|r rows IH]; intros a b; cbn [replay_loop]; [keeps_tac|].
+  keeps_step; [keeps_tac|]. keeps_step; [keeps_tac|]. destruct (_ || _); [apply IH|].
+  keeps_step; [destruct (a <? b); [apply send_msg_keeps_alive|keeps_tac]|].
+  keeps_step; [keeps_tac|]. keeps_step; [keeps_tac|]. keeps_step; [keeps_tac|]. keeps_step; [keeps_tac|].
+  keeps_step; [apply send_msg_keeps_alive|apply IH].
+Qed.
+
+(* _process_resend (D12 repaired: no journal rewind any more): on a live connection it keeps the invariant,
+   consumes no number and journals nothing *)
+Lemma process_resend_outokA c m : outokA (process_resend c m).
+Proof.
+  assert (Hrec : forall a b, outok (recover_out a b)).
+  { intros. apply outok_quiet; try apply recover_out_pres. apply recover_out_allev. }
+  unfold process_resend.
+  okA_bind; [apply outok_A, outok_getw| | |keeps_tac].
+  2:{ mono_step; [mono_tac|]. mono_step; [mono_tac|]. mono_step; [mono_tac|].
+      mono_step; [apply mono_pres, recover_out_pres|]. mono_step; [mono_tac|].
+      mono_step; [apply replay_loop_om|]. mono_step; [mono_tac|].
+      mono_step; [destruct (_ <? _); [apply send_msg_retrans_mono, gap_fill_skip|mono_tac]|]. mono_tac. }
+  okA_bind; [destruct (negb _); [apply state_set_outokA|apply outok_A, outok_ret]| | |].
+  3:{ destruct (negb _); [apply state_set_keeps_alive; stlia|keeps_tac]. }
+  2:{ mono_step; [mono_tac|]. mono_step; [mono_tac|].
+      mono_step; [apply mono_pres, recover_out_pres|]. mono_step; [mono_tac|].
+      mono_step; [apply replay_loop_om|]. mono_step; [mono_tac|].
+      mono_step; [destruct (_ <? _); [apply send_msg_retrans_mono, gap_fill_skip|mono_tac]|]. mono_tac. }
+  okA_bind; [apply outok_A, outok_lift| | |keeps_tac].
+  2:{ mono_step; [mono_tac|].
+      mono_step; [apply mono_pres, recover_out_pres|]. mono_step; [mono_tac|].
+      mono_step; [apply replay_loop_om|]. mono_step; [mono_tac|].
+      mono_step; [destruct (_ <? _); [apply send_msg_retrans_mono, gap_fill_skip|mono_tac]|]. mono_tac. }
+  okA_bind; [apply outok_A, outok_lift| | |keeps_tac].
+  2:{ mono_step; [apply mono_pres, recover_out_pres|]. mono_step; [mono_tac|].
+      mono_step; [apply replay_loop_om|]. mono_step; [mono_tac|].
+      mono_step; [destruct (_ <? _); [apply send_msg_retrans_mono, gap_fill_skip|mono_tac]|]. mono_tac. }
+  okA_bind; [apply outok_A, Hrec| | |apply (keeps_pres st (fun s => ST_DISC_BROKEN < s)), recover_out_pres].
+  2:{ mono_step; [mono_tac|].
+      mono_step; [apply replay_loop_om|]. mono_step; [mono_tac|].
+      mono_step; [destruct (_ <? _); [apply send_msg_retrans_mono, gap_fill_skip|mono_tac]|]. mono_tac. }
+  okA_bind; [apply outok_A, outok_getw| | |keeps_tac].
+  2:{ mono_step; [apply replay_loop_om|]. mono_step; [mono_tac|].
+      mono_step; [destruct (_ <? _); [apply send_msg_retrans_mono, gap_fill_skip|mono_tac]|]. mono_tac. }
+  okA_bind; [apply outok_A, replay_loop_om| | |apply replay_loop_keeps_alive].
+  2:{ mono_step; [mono_tac|].
+      mono_step; [destruct (_ <? _); [apply send_msg_retrans_mono, gap_fill_skip|mono_tac]|]. mono_tac. }
+  okA_bind; [destruct (_ <? _); [apply outok_A, outok_raise|apply outok_A, outok_ret]| | |keeps_tac].
+  2:{ mono_step; [destruct (_ <? _); [apply send_msg_retrans_mono, gap_fill_skip|mono_tac]|]. mono_tac. }
+  okA_bind; [destruct (_ <? _); [apply outok_A, send_msg_retrans_outok, gap_fill_skip|apply outok_A, outok_ret]| | |].
+  3:{ destruct (_ <? _); [apply send_msg_keeps_alive|keeps_tac]. }
+  2:{ mono_tac. }
+  okA_bind; [apply outok_A, outok_getw| |mono_tac|keeps_tac].
+  destruct (negb _); [apply state_set_outokA|apply outok_A, outok_ret].
+Qed.
+
+Lemma process_resend_mono c m : mono (process_resend c m).
+Proof.
+  unfold process_resend. mono_step; [mono_tac|]. mono_step; [mono_tac|]. mono_step; [mono_tac|].
+  mono_step; [mono_tac|]. mono_step; [apply mono_pres, recover_out_pres|]. mono_step; [mono_tac|].
+  mono_step; [apply replay_loop_om|]. mono_step; [mono_tac|].
+  mono_step; [destruct (_ <? _); [apply send_msg_retrans_mono, gap_fill_skip|mono_tac]|]. mono_tac.
+Qed.
+
+(* everything dispatch does keeps the invariant on a live connection (dispatch is only reached on one) *)
+Lemma dispatch_outokA c m v : outokA (dispatch c m v).
+Proof.
   assert (Hd : outok (if v then (w <- getw ;; match get_int T34 m with
                                              | inl n => if n =? nin w then emit (App m) else ret tt
                                              | inr _ => ret tt end)
@@ -541,17 +787,19 @@ Proof.
   { destruct v; [|apply outok_ret]. ok_step; [apply outok_getw| |].
     - destruct (get_int T34 m); [|apply outok_ret]. destruct (_ =? _); [apply outok_emit; exact I|apply outok_ret].
     - mono_tac. }
-  unfold dispatch. destruct (mkind m); try congruence; try apply outok_ret.
-  - exact Hd.
-  - apply process_testrequest_outok.
-  - apply process_heartbeat_outok.
-  - exact Hd.
+  unfold dispatch. destruct (mkind m); try apply outok_A, outok_ret.
+  - apply outok_A, Hd.
+  - apply process_resend_outokA.
+  - apply outok_A, process_testrequest_outok.
+  - apply outok_A, process_heartbeat_outok.
+  - apply outok_A, Hd.
 Qed.
 
-Lemma dispatch_mono c m v : mkind m <> KResend -> mono (dispatch c m v).
+Lemma dispatch_mono c m v : mono (dispatch c m v).
 Proof.
-  intros Hk. unfold dispatch. destruct (mkind m); try congruence; try apply mono_ret.
+  unfold dispatch. destruct (mkind m); try apply mono_ret.
   - destruct v; mono_tac.
+  - apply process_resend_mono.
   - apply send_msg_mono. reflexivity.
   - unfold process_heartbeat. mono_tac. apply disconnect_mono.
   - destruct v; mono_tac.
@@ -654,18 +902,63 @@ Proof.
   - mono_step; [apply pre_handlers_mono|apply gap_check_mono].
 Qed.
 
-Lemma process_message_outok c m now : mkind m <> KResend -> outok (process_message c m now).
+(* bind where the continuation may use what the first part returned in the world it left *)
+Lemma outok_bind_dep {A B} (c : M A) (k : A -> M B) :
+  outok c -> (forall a, mono (k a)) ->
+  (forall w a, Out_inv (rw (c w)) -> rv (c w) = inl a -> in_range (rw (c w)) (k a (rw (c w))) ->
+               OutStep (rw (c w)) (k a (rw (c w)))) ->
+  outok (bind c k).
 Proof.
-  intros Hk w Hi Hr. unfold process_message in *. destruct (validate_integrity c m w).
-  - assert (H : outok (r1 <- try_ (part1 c m) ;; after_part1 c m now r1)).
-    { ok_step; [apply outok_try, part1_outok| |].
-      - unfold after_part1. destruct a as [[[|]|]|]; try apply outok_ret.
-        + ok_step; [apply outok_try, dispatch_outok; exact Hk|apply finalize_outok|apply finalize_mono].
-        + ok_step; [apply outok_try, dispatch_outok; exact Hk|apply outok_ret|apply mono_ret].
-      - unfold after_part1. destruct a as [[[|]|]|]; try apply mono_ret.
-        + mono_step; [apply mono_try, dispatch_mono; exact Hk|apply finalize_mono].
-        + mono_step; [apply mono_try, dispatch_mono; exact Hk|apply mono_ret]. }
-    apply H; assumption.
+  intros Hc Hm Hk w Hi [Hlo Hhi]. rewrite bind_unfold in *.
+  destruct (rv (c w)) eqn:E; cbn [rv rw re] in *.
+  - assert (S1 : OutStep w (c w)).
+    { apply Hc; [exact Hi|]. split; [exact Hlo|]. specialize (Hm a (rw (c w))). lia. }
+    assert (S2 : OutStep (rw (c w)) (k a (rw (c w)))).
+    { apply Hk; [apply S1|exact E|]. split; [|exact Hhi]. rewrite (os_nout _ _ S1). lia. }
+    apply (outstep_compose w (c w) (k a (rw (c w))) S1 S2).
+  - assert (S1 : OutStep w (c w)) by (apply Hc; [exact Hi|split; assumption]).
+    destruct S1 as [A1 A2 A3 A4]. constructor; cbn [rv rw re]; auto.
+Qed.
+
+Lemma outokA_try {A} (c : M A) : outokA c -> outokA (try_ c).
+Proof.
+  intros H w Hi Ha Hr. unfold try_ in *.
+  assert (S : OutStep w (c w)).
+  { apply H; [exact Hi|exact Ha|]. destruct Hr as [H1 H2]. split; [exact H1|]. destruct (rv (c w)); exact H2. }
+  destruct S as [A1 A2 A3 A4]. destruct (rv (c w)); constructor; cbn [rv rw re]; auto.
+Qed.
+
+(* when the try body reaches the dispatcher the connection is up *)
+Lemma part1_some_alive c m w b : rv (part1 c m w) = inl (Some b) -> alive (rw (part1 c m w)).
+Proof.
+  intros H. pose proof (part1_spec c m w) as [Pt _ _ _ _ Pf]. unfold alive. destruct b.
+  - destruct (Pt H) as [n [_ [_ [_ [_ Hnd]]]]]. unfold dead in Hnd. lia.
+  - rewrite (Pf H). stlia.
+Qed.
+
+Lemma after_part1_mono c m now r1 : mono (after_part1 c m now r1).
+Proof.
+  unfold after_part1. destruct r1 as [[[|]|]|]; try apply mono_ret.
+  - mono_step; [apply mono_try, dispatch_mono|apply finalize_mono].
+  - mono_step; [apply mono_try, dispatch_mono|apply mono_ret].
+Qed.
+
+(* _process_message keeps the outbound invariant - for every inbound message, ResendRequests included *)
+Lemma process_message_outok c m now : outok (process_message c m now).
+Proof.
+  intros w Hi Hr. unfold process_message in *. destruct (validate_integrity c m w).
+  - assert (H : outok (r1 <- try_ (part1 c m) ;; after_part1 c m now r1)); [|apply H; assumption].
+    apply outok_bind_dep; [apply outok_try, part1_outok|intros; apply after_part1_mono|].
+    intros w0 r1 Hi1 Hrv Hr1. unfold after_part1 in *.
+    destruct r1 as [[b|]|]; try (apply outok_ret; assumption).
+    assert (Ha : alive (rw (try_ (part1 c m) w0))).
+    { unfold try_ in *. destruct (rv (part1 c m w0)) as [o|x] eqn:E; cbn [rv rw re] in *; [|discriminate].
+      inversion Hrv. subst o. apply part1_some_alive with (b := b). exact E. }
+    destruct b.
+    + assert (H : outokA (try_ (dispatch c m true) ;;; finalize m now)); [|apply H; assumption].
+      apply outokA_bind_ok; [apply outokA_try, dispatch_outokA|intros; apply finalize_outok|intros; apply finalize_mono].
+    + assert (H : outokA (try_ (dispatch c m false) ;;; ret tt)); [|apply H; assumption].
+      apply outokA_bind_ok; [apply outokA_try, dispatch_outokA|intros; apply outok_ret|intros; apply mono_ret].
   - apply disconnect_outok; assumption.
   - apply disconnect_outok; assumption.
   - apply outstep_id. exact Hi.
@@ -673,43 +966,33 @@ Qed.
 
 (* ------------------------------------------------------------------ histories *)
 
-(* known-finding classes *)
-(* D12: an inbound ResendRequest (its servicing rewinds / truncates the outbound journal) *)
-Definition D12_step (s : srec) : Prop := exists m now, s_op s = OIn m now /\ mkind m = KResend.
-(* D20: the application sends a message whose number is taken from the message itself
-   (SequenceReset, or PossDupFlag = Y): it is journaled under that number without consuming it *)
-Definition D20_step (s : srec) : Prop := exists m, s_op s = OSend m /\ raw_seq m = true.
+(* known-finding class *)
+(* D20: the application sends a SequenceReset that is not a gap fill (no GapFillFlag = Y, no PossDupFlag = Y):
+   it is numbered by its own MsgSeqNum field and journaled under that number without consuming it.
+   (PossDupFlag = Y messages and SequenceReset-GapFill are written but never journaled: harmless.) *)
+Definition D20_step (s : srec) : Prop :=
+  exists m, s_op s = OSend m /\ raw_seq m = true /\ skip_journal m = false.
 
-Definition D12_stepb (s : srec) : bool :=
-  match s_op s with OIn m _ => kind_eqb (mkind m) KResend | _ => false end.
 Definition D20_stepb (s : srec) : bool :=
-  match s_op s with OSend m => raw_seq m | _ => false end.
-
-Lemma kind_eqb_refl k : kind_eqb k k = true. Proof. destruct k; reflexivity. Qed.
+  match s_op s with OSend m => raw_seq m && negb (skip_journal m) | _ => false end.
 
 Lemma c05_classes_forallb l :
-  forallb (fun s => negb (D12_stepb s) && negb (D20_stepb s)) l = true ->
-  Forall (fun s => ~ D12_step s /\ ~ D20_step s) l.
+  forallb (fun s => negb (D20_stepb s)) l = true -> Forall (fun s => ~ D20_step s) l.
 Proof.
   intros H. rewrite forallb_forall in H. apply Forall_forall. intros s Hs. specialize (H s Hs).
-  apply andb_true_iff in H. destruct H as [H1 H2]. split.
-  - intros [m [now [Ho Hk]]]. unfold D12_stepb in H1. rewrite Ho, Hk in H1. discriminate.
-  - intros [m [Ho Hr]]. unfold D20_stepb in H2. rewrite Ho, Hr in H2. discriminate.
+  intros [m [Ho [Hr Hk]]]. unfold D20_stepb in H. rewrite Ho, Hr, Hk in H. discriminate.
 Qed.
-
-Lemma kind_resend_dec m : mkind m = KResend \/ mkind m <> KResend.
-Proof. destruct (mkind m); auto; right; discriminate. Qed.
 
 Lemma step_outok c o w :
   let s := mkS w o (step c o w) in
-  ~ D12_step s -> ~ D20_step s -> Out_inv w -> in_range w (step c o w) -> OutStep w (step c o w).
+  ~ D20_step s -> Out_inv w -> in_range w (step c o w) -> OutStep w (step c o w).
 Proof.
-  intros s H12 H20 Hi Hr. subst s. destruct o as [m now|m|now|ds lm]; cbn [step] in *.
-  - destruct (kind_resend_dec m) as [Hk|Hk].
-    + exfalso. apply H12. exists m, now. auto.
-    + apply process_message_outok; assumption.
+  intros s H20 Hi Hr. subst s. destruct o as [m now|m|now|ds lm]; cbn [step] in *.
+  - apply process_message_outok; assumption.
   - destruct (raw_seq m) eqn:E.
-    + exfalso. apply H20. exists m. auto.
+    + destruct (skip_journal m) eqn:Es.
+      * apply send_msg_retrans_outok; assumption.
+      * exfalso. apply H20. exists m. auto.
     + apply send_msg_new_outok; assumption.
   - assert (H : outok (send_test_req c now)).
     { unfold send_test_req. ok_step; [apply outok_getw| |].
@@ -721,17 +1004,16 @@ Proof.
 Qed.
 
 Lemma step_mono c o w :
-  ~ D12_step (mkS w o (step c o w)) -> ~ D20_step (mkS w o (step c o w)) -> nout w <= nout (rw (step c o w)).
+  ~ D20_step (mkS w o (step c o w)) -> nout w <= nout (rw (step c o w)).
 Proof.
-  intros H12 H20. destruct o as [m now|m|now|ds lm]; cbn [step] in *.
-  - destruct (kind_resend_dec m) as [Hk|Hk]; [exfalso; apply H12; exists m, now; auto|].
-    unfold process_message. destruct (validate_integrity c m w); try apply disconnect_mono; [|cbn; lia].
+  intros H20. destruct o as [m now|m|now|ds lm]; cbn [step] in *.
+  - unfold process_message. destruct (validate_integrity c m w); try apply disconnect_mono; [|cbn; lia].
     assert (H : mono (r1 <- try_ (part1 c m) ;; after_part1 c m now r1)); [|apply H].
-    mono_step; [apply mono_try, part1_mono|].
-    unfold after_part1. destruct a as [[[|]|]|]; try apply mono_ret.
-    + mono_step; [apply mono_try, dispatch_mono; exact Hk|apply finalize_mono].
-    + mono_step; [apply mono_try, dispatch_mono; exact Hk|apply mono_ret].
-  - destruct (raw_seq m) eqn:E; [exfalso; apply H20; exists m; auto|]. apply send_msg_mono. exact E.
+    mono_step; [apply mono_try, part1_mono|apply after_part1_mono].
+  - destruct (raw_seq m) eqn:E.
+    + destruct (skip_journal m) eqn:Es; [apply send_msg_retrans_mono; exact Es|].
+      exfalso. apply H20. exists m. auto.
+    + apply send_msg_mono. exact E.
   - unfold send_test_req. rewrite bind_unfold. cbn [getw rv rw re].
     destruct (treq w); [cbn; lia|]. rewrite bind_unfold. cbn [modw rv rw re].
     apply (send_msg_mono c (mkMsg MT_TESTREQUEST [(T112, z_to_dec now)]) eq_refl (set_treq (Some now) w)).
@@ -742,24 +1024,25 @@ Lemma final_cons c w o h : final c w (o :: h) = final c (rw (step c o w)) h.
 Proof. reflexivity. Qed.
 
 Lemma run_mono c h : forall w,
-  Forall (fun s => ~ D12_step s /\ ~ D20_step s) (run c w h) -> nout w <= nout (final c w h).
+  Forall (fun s => ~ D20_step s) (run c w h) -> nout w <= nout (final c w h).
 Proof.
   induction h as [|o h IH]; intros w Hc; [cbn; lia|].
-  rewrite final_cons. cbn [run] in Hc. inversion Hc as [|s l [H12 H20] Hrest]; subst.
-  pose proof (step_mono c o w H12 H20). specialize (IH _ Hrest). lia.
+  rewrite final_cons. cbn [run] in Hc. inversion Hc as [|s l H20 Hrest]; subst.
+  pose proof (step_mono c o w H20). specialize (IH _ Hrest). lia.
 Qed.
 
-(* C05_history_partial: outside D12 / D20, with all numbers inside SQLite's INTEGER range, every step of every
-   history keeps the invariant, numbers what it writes consecutively from next_num_out, and journals exactly that *)
+(* C05_history_partial: outside D20, with all numbers inside SQLite's INTEGER range, every step of every history
+   (inbound ResendRequests included) keeps the invariant, numbers the new frames it writes consecutively from
+   next_num_out, and journals exactly those *)
 Lemma run_out_inv c h : forall w,
   Out_inv w -> I64MIN <= nout w -> nout (final c w h) <= I64MAX + 1 ->
-  Forall (fun s => ~ D12_step s /\ ~ D20_step s) (run c w h) ->
+  Forall (fun s => ~ D20_step s) (run c w h) ->
   Forall (fun s => OutStep (s_before s) (s_res s)) (run c w h) /\ Out_inv (final c w h).
 Proof.
   induction h as [|o h IH]; intros w Hi Hlo Hhi Hc.
   { split; [constructor|exact Hi]. }
-  rewrite final_cons in *. cbn [run] in *. inversion Hc as [|s l [H12 H20] Hrest]; subst.
-  pose proof (step_mono c o w H12 H20) as Hm.
+  rewrite final_cons in *. cbn [run] in *. inversion Hc as [|s l H20 Hrest]; subst.
+  pose proof (step_mono c o w H20) as Hm.
   pose proof (run_mono c h _ Hrest) as Hb.
   assert (S : OutStep w (step c o w)).
   { apply step_outok; auto. split; [exact Hlo|lia]. }
@@ -839,33 +1122,34 @@ Definition cfgS : cfg := cfg0.
 Definition o_app (id : String.string) := OSend (mkMsg (S "D") [(S "11", S id); (S "55", S "SYM")]).
 Arguments o_app id%string.
 
-(* D12: Logon exchange, two application sends (2, 3); the peer asks twice for 2..: the second request finds
-   the journaled PossDup copies, aborts (DuplicatedTagError swallowed) and leaves next_num_out rewound to 2;
-   the next new message reuses number 2 *)
+(* the former D12 witness (repaired in the code): Logon exchange, two application sends (2, 3); the peer asks
+   twice for 2..: both requests are answered from the untouched journal, next_num_out stays 4 and the next new
+   message is 4 *)
 Definition h_resend_twice :=
   [i_logon 1; o_app "A"; o_app "B"; i_resend 2 2 0; i_resend 3 2 0; o_app "C"].
 
 Definition new_numbers (l : list event) : list str :=
-  flat_map (fun wm => if raw_seq wm then [] else match get T34 (mtags wm) with Some v => [v] | None => [] end) (wires l).
+  flat_map (fun wm => match get T34 (mtags wm) with Some v => [v] | None => [] end) (news l).
 
-Lemma resend_abort_refuted :
-  exists c w h,
-    Out_inv w /\ in_i64 (nout (final c w h)) = true
-    /\ (exists s, In s (run c w h) /\ nout (s_after s) < nout (s_before s))
-    /\ new_numbers (trace (run c w h)) = [S "1"; S "2"; S "3"; S "2"].
+Lemma resend_twice_ok :
+  Out_inv w_acceptor /\ Forall (fun s => ~ D20_step s) (run cfgS w_acceptor h_resend_twice)
+  /\ new_numbers (trace (run cfgS w_acceptor h_resend_twice)) = [S "1"; S "2"; S "3"; S "4"]
+  /\ map fst (j_out (jr (final cfgS w_acceptor h_resend_twice))) = [1; 2; 3; 4]
+  /\ length (wires (trace (run cfgS w_acceptor h_resend_twice))) = 8%nat
+  /\ st (final cfgS w_acceptor h_resend_twice) = ST_ACTIVE.
 Proof.
-  exists cfgS, w_acceptor, h_resend_twice.
-  split; [repeat split; try constructor; intros; reflexivity|]. split; [vm_compute; reflexivity|].
-  split; [|vm_compute; reflexivity].
-  eexists (nth 4 (run cfgS w_acceptor h_resend_twice) (mkS w_acceptor (i_logon 1) (step cfgS (i_logon 1) w_acceptor))).
-  split; [do 4 right; left; reflexivity|]. vm_compute. reflexivity.
+  split; [repeat split; try constructor; intros; reflexivity|].
+  split; [apply c05_classes_forallb; vm_compute; reflexivity|].
+  repeat split; vm_compute; reflexivity.
 Qed.
 
-(* D20: the application sends a SequenceReset numbered next_num_out: it goes out and is journaled under that
+(* D20: the application sends a plain SequenceReset numbered next_num_out: it goes out and is journaled under that
    number without consuming it; the next new message carries the same number and its journal write fails *)
 Definition o_seqreset (seq new : Z) :=
   OSend (mkMsg (S "4") [(T123, S "Y"); (T34, z_to_dec seq); (T36, z_to_dec new)]).
-Definition h_app_seqreset := [i_logon 1; o_seqreset 2 5; o_app "A"].
+Definition o_reset (seq new : Z) :=
+  OSend (mkMsg (S "4") [(T34, z_to_dec seq); (T36, z_to_dec new)]).
+Definition h_app_seqreset := [i_logon 1; o_reset 2 5; o_app "A"].
 
 Lemma app_seqreset_refuted :
   exists c w h,
@@ -885,14 +1169,27 @@ Proof.
     + intros [H _]. vm_compute in H. discriminate.
 Qed.
 
-(* non-vacuity: a session with sends, a gap, a heartbeat exchange and a logout stays inside the invariant *)
+(* an application-sent SequenceReset-GapFill or PossDupFlag=Y message is written but not journaled and consumes
+   nothing: inside the scope of the partial theorem *)
+Definition h_app_gapfill :=
+  [i_logon 1; o_seqreset 2 5; OSend (mkMsg (S "D") [(S "11", S "X"); (T43, S "Y"); (T34, S "1")]); o_app "A"].
+Lemma app_gapfill_in_scope :
+  Forall (fun s => ~ D20_step s) (run cfgS w_acceptor h_app_gapfill)
+  /\ new_numbers (trace (run cfgS w_acceptor h_app_gapfill)) = [S "1"; S "2"]
+  /\ length (wires (trace (run cfgS w_acceptor h_app_gapfill))) = 4%nat
+  /\ map fst (j_out (jr (final cfgS w_acceptor h_app_gapfill))) = [1; 2].
+Proof.
+  split; [apply c05_classes_forallb; vm_compute; reflexivity|]. repeat split; vm_compute; reflexivity.
+Qed.
+
+(* non-vacuity: a session with sends, a served ResendRequest, a heartbeat exchange and a logout stays inside the invariant *)
 Definition h_c05_good :=
-  [i_logon 1; o_app "A"; i_app 2; OTestReq 7; OIn (inbound (S "0") 3 [(T112, S "7")]) 0; i_app 5;
-   OIn (inbound (S "1") 4 [(T112, S "X")]) 0; o_app "B"; OIn (inbound (S "5") 5 []) 0; o_app "C"].
+  [i_logon 1; o_app "A"; i_app 2; i_resend 3 1 0; OTestReq 7; OIn (inbound (S "0") 4 [(T112, S "7")]) 0; i_app 6;
+   OIn (inbound (S "1") 5 [(T112, S "X")]) 0; o_app "B"; OIn (inbound (S "5") 6 []) 0; o_app "C"].
 
 Lemma c05_good_in_scope :
   Out_inv w_acceptor /\ I64MIN <= nout w_acceptor /\ nout (final cfgS w_acceptor h_c05_good) <= I64MAX + 1
-  /\ Forall (fun s => ~ D12_step s /\ ~ D20_step s) (run cfgS w_acceptor h_c05_good)
+  /\ Forall (fun s => ~ D20_step s) (run cfgS w_acceptor h_c05_good)
   /\ new_numbers (trace (run cfgS w_acceptor h_c05_good)) = [S "1"; S "2"; S "3"; S "4"; S "5"; S "6"]
   /\ j_sout (jr (final cfgS w_acceptor h_c05_good)) = 6.
 Proof.
@@ -923,7 +1220,7 @@ Qed.
 
 Definition rr_msg (w : world) : msg := mkMsg MT_RESENDREQUEST [(T7, z_to_dec (nin w)); (T16, S_0)].
 
-(* with the outbound invariant (no D12 / D20 damage) and an open send gate, _check_seqnum_gaps on a gap
+(* with the outbound invariant (no D20 damage) and an open send gate, _check_seqnum_gaps on a gap
    writes exactly one ResendRequest and the state becomes RESENDREQ_AWAITING *)
 Lemma check_gaps_requests c n w :
   Out_inv w -> in_i64 (nout w) = true -> gate_refuses (rr_msg w) w = false ->
@@ -957,7 +1254,7 @@ Definition plain_kind (m : msg) : Prop :=
 
 (* C04 (exactly one): a message of a kind without pre-handler, numbered above the expected number, received on a
    logged-on connection that is not already awaiting a resend, makes the receiver write exactly one ResendRequest
-   from the expected number and wait - provided the outbound side is intact (Out_inv: no D12 / D20 damage) *)
+   from the expected number and wait - provided the outbound side is intact (Out_inv: no D20 damage) *)
 Lemma gap_is_requested c m now w n :
   Out_inv w -> in_i64 (nout w) = true -> validate_integrity c m w = VOk -> get_int T34 m = inl n ->
   nin w < n -> st w <> ST_AWAITING -> ST_NCE < st w -> gate_refuses (rr_msg w) w = false -> plain_kind m ->
